@@ -2518,6 +2518,13 @@ int64_t ExpressionEvaluator::evaluate_function_call_impl(const ASTNode *node) {
                 } else if (actual_type == "char") {
                     char *arr = reinterpret_cast<char *>(ptr_value);
                     return static_cast<int64_t>(arr[index]);
+                } else if (actual_type == "double") {
+                    double *arr = reinterpret_cast<double *>(ptr_value);
+                    throw ReturnException(arr[index], TYPE_DOUBLE);
+                } else if (actual_type == "float") {
+                    float *arr = reinterpret_cast<float *>(ptr_value);
+                    throw ReturnException(static_cast<double>(arr[index]),
+                                          TYPE_FLOAT);
                 } else if (actual_type == "string") {
                     // v0.13.4: 文字列配列のサポート
                     // メモリレイアウト: char*ポインタの配列
@@ -2949,6 +2956,21 @@ int64_t ExpressionEvaluator::evaluate_function_call_impl(const ASTNode *node) {
                             return 0;
                         }
                     }
+                }
+
+                // Floating-point elements keep their fraction: evaluate the
+                // value with its type instead of through the integer path.
+                if (actual_type == "double" || actual_type == "float") {
+                    TypedValue typed_val =
+                        interpreter_.evaluate_typed(node->arguments[2].get());
+                    if (actual_type == "double") {
+                        double *arr = reinterpret_cast<double *>(ptr_value);
+                        arr[index] = typed_val.as_double();
+                    } else {
+                        float *arr = reinterpret_cast<float *>(ptr_value);
+                        arr[index] = static_cast<float>(typed_val.as_double());
+                    }
+                    return 0;
                 }
 
                 // プリミティブ型の処理
